@@ -209,3 +209,115 @@ Definition table_merge (fixed : bool) (sb sl sr : schema) (b l r : table) : merg
   {| m_err := existsb (fun k => is_err (f k)) ks;
      m_rows := flat_map (fun k => match f k with ROk (Some v) _ => [(k, v)] | _ => [] end) ks;
      m_conf := flat_map (fun k => match f k with ROk v true => [(k, (get k b, v, get k r))] | _ => [] end) ks |}.
+
+(* ====================================================================== *)
+(* Value class vs. representation.
+   A cell's number stands for its stored bytes (bytes.Compare order = order of the numbers); a
+   class function [cls] gives the value it denotes under the column's SQL type — 'foo' and 'FOO'
+   in a case-insensitive collation are two representations of one class.  sqlType.Compare looks at
+   the class; the differ (bytes.Equal) and the tie-break of processColumn look at the bytes.
+   The functions above are the specialisation [cls = fun x => x] (proved: row_merge_g_id). *)
+(* ====================================================================== *)
+Definition cell_veqb (cls : N -> N) (a b : cell) : bool :=
+  match a, b with None, None => true | Some x, Some y => cls x =? cls y | _, _ => false end.
+
+(* bytes.Compare(leftCol, rightCol) > 0 *)
+Definition bytes_gt (a b : cell) : bool :=
+  match a, b with Some x, Some y => y <? x | Some _, None => true | _, _ => false end.
+
+(* "we sort the two values and return the higher one" — both tie-break sites of processColumn *)
+Definition tie (l r : cell) : cell := if bytes_gt l r then l else r.
+
+Definition cmp_base_g (cls : N -> N) (sb : schema) (b : row) (c : N) (v : cell) : bool :=
+  negb (cell_veqb cls (nullify (col sb b c)) v).
+
+Definition base_col_g (cls : N -> N) (fixed : bool) (sb sl sr : schema) (b : row) (ol or : option row) (c : N) : option bool :=
+  match ol, or with
+  | None, None => Some false
+  | None, Some r =>
+      match col sr r c with None => Some false | Some v => Some (cmp_base_g cls sb b c v) end
+  | Some l, None =>
+      match col sl l c with
+      | None => Some false
+      | Some v =>
+          if fixed then Some (cmp_base_g cls sb b c v)
+          else match index_of c sl with
+               | Some i => if Nat.ltb i (length sr) then Some (cmp_base_g cls sb b c v) else None
+               | None => Some false
+               end
+      end
+  | Some l, Some r =>
+      match col sl l c, col sr r c with
+      | Some _, Some _ => Some false
+      | None, None => Some false
+      | None, Some v => Some (cmp_base_g cls sb b c v)
+      | Some v, None => Some (cmp_base_g cls sb b c v)
+      end
+  end.
+
+Definition merged_col_g (cls : N -> N) (sb sl sr : schema) (ob : option row) (l r : row) (c : N) : cres :=
+  match ocol sb ob c with
+  | None =>
+      match col sl l c, col sr r c with
+      | Some lv, None => CVal lv
+      | None, None => CErr
+      | None, Some rv => CVal rv
+      | Some lv, Some rv => if cell_veqb cls lv rv then CVal (tie lv rv) else CConf   (* tie-break site 1 *)
+      end
+  | Some bv =>
+      match col sl l c, col sr r c with
+      | None, None => CVal None
+      | None, Some _ => CErr
+      | Some lv, None =>
+          if cell_veqb cls lv None then CVal None
+          else if negb (cell_veqb cls lv bv) && negb (cell_veqb cls bv None) then CConf
+          else if negb (cell_veqb cls lv bv) then CVal lv else CVal None
+      | Some lv, Some rv =>
+          if cell_veqb cls lv rv then CVal (tie lv rv)                                    (* tie-break site 2 *)
+          else if negb (cell_veqb cls lv bv) && negb (cell_veqb cls rv bv) then CConf
+          else if negb (cell_veqb cls lv bv) then CVal lv else CVal rv
+      end
+  end.
+
+Definition try_merge_g (cls : N -> N) (fixed : bool) (sb sl sr sm : schema) (ob ol or : option row) : tm :=
+  match (match ob with Some b => base_pass (base_col_g cls fixed sb sl sr b ol or) sb | None => Some false end) with
+  | None => TErr
+  | Some true => TConflict
+  | Some false =>
+      match ob, ol, or with
+      | _, Some l, Some r => col_pass (merged_col_g cls sb sl sr ob l r) sm
+      | Some _, _, _ => TDelete
+      | None, _, _ => TErr
+      end
+  end.
+
+Definition row_merge_g (cls : N -> N) (fixed : bool) (sb sl sr : schema) (ob ol or : option row) : res :=
+  let sm := merged_schema sb sl sr in
+  let ours := option_map (remap sm sl) ol in
+  match side_diff (side_flag sb sl sr) ob ol, side_diff (side_flag sb sr sl) ob or with
+  | _, false => ROk ours false
+  | false, true => ROk (option_map (remap sm sr) or) false
+  | true, true =>
+      match ol, or with
+      | None, None => ROk None false
+      | _, _ =>
+          if (match ol, or with Some l, Some r => row_eqb l r | _, _ => false end)
+          then ROk (option_map (remap sm sm) ol) false
+          else match try_merge_g cls fixed sb sl sr sm ob ol or with
+               | TErr => RErr
+               | TConflict => ROk ours true
+               | TDelete => ROk None false
+               | TMerged m => ROk (Some m) false
+               end
+      end
+  end.
+
+Definition merge_key_g (cls : N -> N) (fixed : bool) (sb sl sr : schema) (b l r : table) (k : N) : res :=
+  row_merge_g cls fixed sb sl sr (get k b) (get k l) (get k r).
+
+Definition table_merge_g (cls : N -> N) (fixed : bool) (sb sl sr : schema) (b l r : table) : merged :=
+  let ks := all_keys b l r in
+  let f := merge_key_g cls fixed sb sl sr b l r in
+  {| m_err := existsb (fun k => is_err (f k)) ks;
+     m_rows := flat_map (fun k => match f k with ROk (Some v) _ => [(k, v)] | _ => [] end) ks;
+     m_conf := flat_map (fun k => match f k with ROk v true => [(k, (get k b, v, get k r))] | _ => [] end) ks |}.
